@@ -20,6 +20,8 @@ RULE = (
     "(multiset of ops, each printed as a tree over the ops feeding its input ports down to function inputs and constants, mirrored "
     "comparisons normalised) must be equal. Builtin/container/call probes: multisets of arithmetic, quantum and user-function operations must "
     "be equal modulo trace-time evaluation (constants, bounds checks of constant indices, len of static arrays are folded by Python). "
+    "Data-dependency probes: borrowed arguments of copyable types modified by a Guppy callee and read afterwards; the expression tree "
+    "(scalars/tuples/structs) or the set of inputs and callees (arrays) feeding every function output must be equal in both modes. "
     "Non-trivial = both versions compile; both rejecting is also agreement."
 )
 ASSUMPTIONS = [
@@ -421,6 +423,195 @@ COMPTIME_ONLY_EQUIV = [
 ]
 
 
+# ---------------------------------------------------------------------- data-dependency probes
+# A borrowed (inout) argument of a COPYABLE type that the Guppy callee modifies must be re-bound to the
+# callee's returned wire; reading it afterwards must see the new value in both modes.  Op multisets cannot
+# see this (the same ops are emitted; only *which wire feeds the later use* differs), so these probes compare
+# the expression tree (scalars / tuples / structs) or the set of function inputs and user callees (arrays,
+# where the two modes legitimately use different array operations) that every function OUTPUT depends on.
+DEP_PRELUDE = (
+    "from guppylang.std.mem import mem_swap\n"
+    "@guppy.struct\nclass P:\n    a: int\n    b: float\n"
+    "@guppy\ndef bump(xs: array[int, 2]) -> None:\n    xs[0] += 10\n"
+    "@guppy\ndef fbump(xs: array[float, 2]) -> None:\n    xs[1] = xs[0] * 2.0\n"
+    "@guppy\ndef move(xs: array[int, 2], ys: array[int, 2]) -> None:\n    ys[1] = xs[0]\n"
+    "@guppy\ndef inc(x: int) -> int:\n    return x + 1\n"
+    "@guppy\ndef tbump(ts: array[tuple[int, bool], 2]) -> None:\n    ts[0] = (7, False)\n"
+)
+DEP_CALLEES = ("mem_swap", "bump", "fbump", "move", "inc", "tbump")
+SCALARS = {"int": ("x - y", "int"), "nat": ("x + y", "nat"), "float": ("x / y", "float"), "bool": ("x & y", "bool"),
+           "tuple[int, float]": ("x[0] + y[0]", "int"), "P": ("x.a - y.a", "int")}
+
+
+def dep_probes():
+    out = []
+    for T, (expr, rt) in SCALARS.items():
+        sig = f"x: {T}, y: {T}"
+        out.append((f"swap {T} read both", sig, rt, f"mem_swap(x, y)\nreturn {expr}", "exact"))
+        out.append((f"swap {T} return first", sig, T.replace("P", "P"), "mem_swap(x, y)\nreturn x", "exact"))
+        out.append((f"swap {T} twice", sig, T, "mem_swap(x, y)\nmem_swap(y, x)\nreturn y", "exact"))
+        out.append((f"swap {T} then compute then swap", sig, rt, f"mem_swap(x, y)\nz = {expr}\nmem_swap(x, y)\nreturn z", "exact"))
+    out.append(("swap computed values", "x: int, y: int", "int", "a = x + 1\nb = y * 2\nmem_swap(a, b)\nreturn a - b", "exact"))
+    out.append(("swap after call", "x: int, y: int", "int", "a = inc(x)\nmem_swap(a, y)\nreturn a - y", "exact"))
+    out.append(("plain calls", "x: int", "int", "return inc(inc(x)) - x", "exact"))
+    arr = [
+        ("array bump read", "xs: array[int, 2]", "int", "bump(xs)\nreturn xs[0]"),
+        ("array bump twice", "xs: array[int, 2]", "int", "bump(xs)\nbump(xs)\nreturn xs[0] + xs[1]"),
+        ("array bump other elem", "xs: array[int, 2]", "int", "bump(xs)\nreturn xs[1]"),
+        ("float array", "xs: array[float, 2]", "float", "fbump(xs)\nreturn xs[1]"),
+        ("two arrays", "xs: array[int, 2], ys: array[int, 2]", "int", "move(xs, ys)\nreturn ys[1]"),
+        ("two arrays read source", "xs: array[int, 2], ys: array[int, 2]", "int", "move(xs, ys)\nreturn xs[0]"),
+        ("array of tuples", "ts: array[tuple[int, bool], 2]", "int", "tbump(ts)\nreturn ts[0][0]"),
+        ("local array", "x: int", "int", "xs = array(x, x)\nbump(xs)\nreturn xs[0]"),
+        ("array swap", "xs: array[int, 2], ys: array[int, 2]", "int", "mem_swap(xs, ys)\nreturn xs[0]"),
+        ("array bump no read", "xs: array[int, 2]", "None", "bump(xs)"),
+    ]
+    for n, sig, rt, body in arr:
+        out.append((n, sig, rt, body, "deps"))
+    return out
+
+
+def _lower_outputs(defn):
+    """[(tree, deps)] for every output of the lowered function `f`, or None if it is not straight-line"""
+    import feed
+    import hugr.ops as ops
+
+    g = feed.lower(defn)
+    h = g.hugr
+    src = {}
+    for a, b in h.links():
+        src[(b.node.idx, b.offset)] = (a.node, a.offset)
+    fn = next(n for n in h if isinstance(h[n].op, ops.FuncDefn) and h[n].op.f_name == "f")
+    kids = list(h.children(fn))
+    cfgs = [k for k in kids if isinstance(h[k].op, ops.CFG)]
+    first = 0
+    if cfgs:
+        blocks = [b for b in h.children(cfgs[0]) if isinstance(h[b].op, ops.DataflowBlock)]
+        if len(blocks) != 1:
+            return None
+        kids, first = list(h.children(blocks[0])), 1
+    out = next(k for k in kids if isinstance(h[k].op, ops.Output))
+    region = {k.idx for k in kids}
+
+    def ins(node):
+        return [(i, src[(node.idx, i)]) for i in range(h.num_in_ports(node)) if (node.idx, i) in src]
+
+    def tree(node, off, depth=0):
+        op = h[node].op
+        name = feed.op_name(op)
+        if depth > 40:
+            return "…"
+        if isinstance(op, ops.Input):
+            return f"in{off}"
+        if isinstance(op, ops.LoadConst):
+            c = src.get((node.idx, 0))
+            return "const:" + repr(h[c[0]].op.val)[:60] if c else "const?"
+        if isinstance(op, ops.UnpackTuple):
+            s0 = src.get((node.idx, 0))
+            if s0 and isinstance(h[s0[0]].op, ops.MakeTuple):
+                s1 = src.get((s0[0].idx, off))
+                if s1:
+                    return tree(s1[0], s1[1], depth + 1)
+        if isinstance(op, ops.MakeTuple):
+            ss = [s0 for _i, s0 in ins(node)]
+            if (ss and all(isinstance(h[a].op, ops.UnpackTuple) for a, _o in ss) and len({a.idx for a, _o in ss}) == 1
+                    and [o for _a, o in ss] == list(range(h.num_out_ports(ss[0][0])))):
+                s0 = src.get((ss[0][0].idx, 0))
+                if s0:
+                    return tree(s0[0], s0[1], depth + 1)
+        args = []
+        for _i, (a, o) in ins(node):
+            sop = h[a].op
+            if isinstance(sop, (ops.FuncDefn, ops.FuncDecl)):
+                args.append("fn:" + sop.f_name)
+            elif isinstance(sop, ops.Const):
+                continue
+            else:
+                args.append(tree(a, o, depth + 1))
+        base = name.rsplit(".", 1)[-1]
+        if len(args) == 2:
+            for gt, lt in MIRROR:
+                if base == gt:
+                    name, args = name[: -len(gt)] + lt, [args[1], args[0]]
+                    break
+            else:
+                if base in SYMMETRIC:
+                    args = sorted(args)
+        return f"{name}({','.join(args)})" + (f"#{off}" if h.num_out_ports(node) > 1 else "")
+
+    def deps(node, off):
+        seen, todo, out_ = set(), [node], set()
+        while todo:
+            n = todo.pop()
+            if n.idx in seen:
+                continue
+            seen.add(n.idx)
+            for _i, (a, o) in ins(n):
+                sop = h[a].op
+                if isinstance(sop, (ops.FuncDefn, ops.FuncDecl)):
+                    if sop.f_name in DEP_CALLEES:
+                        out_.add("fn:" + sop.f_name)
+                elif isinstance(sop, ops.Input) and a.idx in region:
+                    out_.add(f"in{o}")
+                elif not isinstance(sop, ops.Const):
+                    todo.append(a)
+        return sorted(out_)
+
+    res = []
+    for i, (a, o) in ins(out):
+        if i < first:
+            continue
+        if isinstance(h[a].op, ops.Input) and a.idx in region:
+            res.append((f"in{o}", [f"in{o}"]))
+        else:
+            res.append((tree(a, o), deps(a, o)))
+    return res
+
+
+def tie_deps(ctx):
+    import feed
+    from guppylang_internals.error import GuppyComptimeError, GuppyError
+
+    for name, sig, ret, body, how in dep_probes():
+        got = {}
+        for mode, deco in (("regular", "@guppy"), ("comptime", "@guppy.comptime")):
+            src = DEP_PRELUDE + f"{deco}\ndef f({sig}) -> {ret}:\n" + "".join("    " + l + "\n" for l in body.split("\n"))
+            m = None
+            try:
+                m = feed.load(src)
+                o, e = feed.check_outcome(m.f)
+                if o != "ok":
+                    got[mode] = ("reject" if o == "user" else "crash", feed.err_class(e))
+                    continue
+                outs = _lower_outputs(m.f)
+                got[mode] = ("ok", outs) if outs is not None else ("unsupported", "not straight-line")
+            except (GuppyError, GuppyComptimeError, TypeError) as e:
+                got[mode] = ("reject", type(e).__name__ + ":" + str(e)[:80])
+            except BaseException as e:  # noqa: BLE001
+                got[mode] = ("crash", type(e).__name__ + ":" + str(e)[:80])
+            finally:
+                if m is not None:
+                    feed.unload(m)
+        (ro, rv), (co, cv) = got["regular"], got["comptime"]
+        key = f"deps:{name}:{body!r}"
+        rep = {"name": name, "sig": sig, "ret": ret, "body": body, "how": how, "regular": [ro, rv], "comptime": [co, cv]}
+        if ro == co == "ok":
+            a = [t for t, _d in rv] if how == "exact" else [d for _t, d in rv]
+            b = [t for t, _d in cv] if how == "exact" else [d for _t, d in cv]
+            same = a == b
+            ctx.count(["deps", name, body], nontrivial=True, kind=f"deps:{how}:" + ("same" if same else "DIFF"))
+            if not same:
+                what = "output expression trees" if how == "exact" else "inputs/callees the outputs depend on"
+                ctx.violation(key, f"`{body}` ({sig}): {what} differ: @guppy {a} vs @guppy.comptime {b} "
+                              "(a borrowed argument modified by the callee is read back with a stale value)", rep)
+        else:
+            ctx.count(["deps", name, body], nontrivial=False, kind=f"deps:{ro}/{co}")
+            if "crash" in (ro, co):
+                ctx.violation(key, f"`{body}` ({sig}): compiler crash: regular {ro} {rv if ro != 'ok' else ''} / comptime {co} {cv if co != 'ok' else ''}", rep)
+            elif ro != co and "unsupported" not in (ro, co):
+                ctx.violation(key, f"`{body}` ({sig}): regular is {ro} ({rv if ro != 'ok' else ''}) but comptime is {co} ({cv if co != 'ok' else ''})", rep)
+
+
 def _binary_cases(ctx, ops):
     rng = ctx.rng
     cases = []
@@ -481,6 +672,7 @@ def tie(ctx):
         _check_pair(ctx, "shape:" + name, sig, ret, body, None, CONTAINER_PRELUDE, wiring=False)
     for name, sig, ret, body, cbody in COMPTIME_ONLY_EQUIV:
         _check_pair(ctx, "shape:" + name, sig, ret, body, cbody, CONTAINER_PRELUDE, wiring=False)
+    tie_deps(ctx)
 
 
 def _check_pair(ctx, name, sig, ret, body, comptime_body, prelude, wiring, model=None, model_line=None):
